@@ -171,7 +171,7 @@ def run(ctx):
                    "operands, argument-independent unwrap, serde field counter) or matches a reviewed row (function, "
                    "kind, multiplicity) whose guard obligation is re-checked on the CFG.")
     ctx.undecided = "panics inside dependencies; allocation failure."
-    ctx.floor = 60
+    ctx.floor = 30 if ctx.core_only else 60
     ctx.assumptions.append("std APIs not in sa/panics.py's deny-list are total; non-std dependency functions are total "
                            "unless listed; the caller's own secret state is honestly generated (rows say so)")
     P = ctx.prog
